@@ -1,5 +1,7 @@
 import Sekai.Model.Stake
 import SekaiProofs.Lemmas.Dec
+import Sekai.Gen.App
+import Sekai.Model.App
 /-! # C15 — Validator status follows allowed transitions; offences and downtime are punished
 
 `transitions`: which status edge each operation can take, for every state. `only_target_changes`: no other
@@ -344,5 +346,12 @@ theorem rank_reset_reactivates_counterexample :
     let s1 := (step {} sP .rankReset).getD sP
     s1.status 0 = .active ∧ s1.status 1 = .active ∧ propertyAllows .paused .active = true ∧
       (step {} sP (.msgActivate 1 999)) = none := by decide
+
+/-! ### Application wiring (table `Gen.App`) -/
+
+/-- the staking keeper carries the slashing module's hooks (signing info is created when a validator is claimed) -/
+theorem staking_hooks_wired :
+    Sekai.Gen.App.hooks.contains ("customStakingKeeper", "stakingtypes.NewMultiStakingHooks(app.CustomSlashingKeeper.Hooks())") = true := by
+  decide +kernel
 
 end Sekai.Props.C15
